@@ -7,13 +7,14 @@ had been called on it), so what is compared is the influence of *expression-leve
 memos, reduction flags, shared objects."""
 from __future__ import annotations
 import random
+import re
 
 from . import wire, gen, common
 from .core import sm, X, call
 from smoothmath import Point
 
 OPS = ["at", "atnum", "partial", "partial_early", "pobj_new", "pobj_at", "pobj_expr", "diff_at",
-       "diff_early_at", "located", "normalize", "deriv", "component_at", "fail_missing"]
+       "diff_early_at", "located", "normalize", "deriv", "component_at", "fail_missing", "compose"]
 
 
 def make_pool(rng: random.Random, k: int, depth: int, names=("x", "y")) -> list:
@@ -75,10 +76,11 @@ def random_ops(rng: random.Random, pool: list, length: int) -> list[dict]:
     npobj = 0
     names = sorted(set().union(*(e._variable_names for e in pool))) or ["x"]
     stock = [g.point(names) for _ in range(3)]      # points come back: "the same point again" histories
+    ncomp = 0
     for _ in range(length):
-        i = rng.randrange(len(pool))
-        e = pool[i]
-        vs = sorted(e._variable_names)
+        i = rng.randrange(len(pool) + ncomp)
+        e = pool[i] if i < len(pool) else pool[0]       # composed members: variables unknown here, use the stock
+        vs = sorted(e._variable_names) if i < len(pool) else list(names)
         p = rng.choice(stock) if rng.random() < 0.7 else g.point(names)
         kind = rng.choice(OPS)
         x = rng.choice(vs) if vs and rng.random() < 0.85 else "w"
@@ -100,6 +102,10 @@ def random_ops(rng: random.Random, pool: list, length: int) -> list[dict]:
             else:
                 op["j"] = rng.randrange(npobj)
                 op["style"] = rng.randrange(3)      # for Differential objects: at().component / component_at / component().at
+        if kind == "compose":
+            op["shape"] = rng.randrange(6)
+            op["r"] = rng.randrange(8)
+            ncomp += 1
         if kind == "fail_missing":
             q = dict(p)
             if vs:
@@ -126,6 +132,11 @@ def directed_prefixes(rng: random.Random, pool: list) -> list[list[dict]]:
         [{"op": "pobj_new", "i": j, "j": 0, "p": P, "x": x}, {"op": "pobj_at", "j": 0, "i": j, "p": P, "x": x},
          {"op": "at", "i": i, "p": Q, "x": x}, {"op": "pobj_expr", "j": 0, "i": j, "p": P, "x": x},
          {"op": "pobj_at", "j": 0, "i": j, "p": Q, "x": x}, {"op": "diff_early_at", "i": j, "p": P, "x": x}],
+        # an expression handed out by one simplification becomes part of a new expression that is simplified in turn
+        [{"op": "normalize", "i": j, "p": P, "x": x}, {"op": "compose", "i": j, "p": P, "x": x, "r": 0, "shape": 0},
+         {"op": "normalize", "i": len(pool), "p": P, "x": x}, {"op": "compose", "i": j, "p": P, "x": x, "r": 1, "shape": 3},
+         {"op": "normalize", "i": len(pool) + 1, "p": Q, "x": x}, {"op": "partial_early", "i": len(pool), "p": Q, "x": x},
+         {"op": "at", "i": len(pool) + 1, "p": Q, "x": x}],
         # the same persistent object at the same point again, the expression evaluated elsewhere in between
         [{"op": "pobj_new", "i": j, "j": 0, "p": P, "x": x}, {"op": "pobj_at", "j": 0, "i": j, "p": P, "x": x},
          {"op": "at", "i": j, "p": Q, "x": x}, {"op": "pobj_at", "j": 0, "i": j, "p": P, "x": x},
@@ -199,6 +210,18 @@ def repeated_simplification(rng: random.Random, pool: list) -> list[dict]:
     return ops
 
 
+def offender_pool(rng: random.Random) -> list:
+    """expressions sharing one variable-free sub-expression *object* that is undefined as written
+    but that the rewriter turns into a defined constant (domain-extending rules)"""
+    x, y = X.Variable("x"), X.Variable("y")
+    c = lambda v: X.Constant(float(v))  # noqa: E731
+    S = rng.choice([X.Power(c(-2), c(2)), X.NthPower(X.NthRoot(c(-4), 2), 2), X.Exponential(X.Logarithm(c(-1))),
+                    X.Reciprocal(X.Reciprocal(c(0))), X.Power(c(0), c(2)), X.Logarithm(X.Exponential(X.Logarithm(c(-3))))])
+    members = [X.Multiply(x, y, S), X.Add(X.Sine(x), S), X.Multiply(S, X.NthPower(x, 2)), X.Divide(X.Add(x, S), y),
+               X.Multiply(x, S, X.Cosine(S)), X.Exponential(X.Multiply(x, S))]
+    return rng.sample(members, 3)
+
+
 def sum_pool(rng: random.Random) -> list:
     """pools built the way users write them: operator chains give nested binary sums and products"""
     g = gen.Gen(rng, names=("x", "y", "z"), floats_only=True)
@@ -216,6 +239,12 @@ def sum_pool(rng: random.Random) -> list:
     return rng.sample([a, b, c, d, e, f], 2) + [rng.choice([h, k])]
 
 
+COMPOSE = [
+    lambda r, x: X.Divide(r, x), lambda r, x: X.Multiply(X.Negation(r), x), lambda r, x: X.Reciprocal(X.Add(r, X.Constant(2.0))),
+    lambda r, x: X.Minus(r, X.Multiply(x, r)), lambda r, x: X.Add(r, X.Sine(x)), lambda r, x: X.NthPower(X.Divide(x, X.Add(r, X.Constant(3.0))), 2),
+]
+
+
 class Runner:
     """executes ops on a pool; persistent Partial objects live in ``pobjs``"""
 
@@ -224,10 +253,27 @@ class Runner:
         self.pobjs: dict[int, object] = {}
         self.pobj_src: dict[int, tuple] = {}
         self.pobj_expr_called: dict[int, bool] = {}
+        self.returned: list = []            # expression objects handed out by earlier operations
+        self.extra_texts: list[str] = []    # structure of the pool members composed from them, as built
 
     def do(self, op: dict):
+        r = self._do(op)
+        if r[0] == "ok" and wire.cls(r[1]) in wire.HEAD:
+            self.returned.append(r[1])
+        return r
+
+    def _do(self, op: dict):
         k = op["op"]
-        e = self.pool[op["i"]]
+        e = self.pool[op["i"]] if op["i"] < len(self.pool) else self.pool[0]
+        if k == "compose":
+            # a new pool member built around an expression object that an earlier operation returned
+            x = X.Variable(op.get("x", "x"))
+            src = self.returned[op["r"] % len(self.returned)] if self.returned else e
+            new = COMPOSE[op["shape"] % len(COMPOSE)](src, x)
+            self.pool.append(new)
+            off = 100000 * (len(self.extra_texts) + 1)          # object ids disjoint from the pool's and from each other's
+            self.extra_texts.append(re.sub(r"@(\d+)", lambda m: "@" + str(int(m.group(1)) + off), wire.expr(new, ids={})))
+            return ("ok", None)
         x = op.get("x", "x")
         p = wire.build_point(op["p"])
         if k in ("at", "fail_missing"):
@@ -301,6 +347,8 @@ def make_obj(kind: str, e, x: str):
 def fresh_result(pool_texts: list[str], op: dict, src: tuple | None, expr_called_before: bool):
     """the same operation on a freshly built, never-used copy; a persistent Partial is rebuilt in the
     abstract state it had (whether as_expression() had been called on it)"""
+    if op["op"] == "compose":
+        return ("ok", None)
     r = Runner(build_pool(pool_texts))
     if op["op"] in ("pobj_at", "pobj_expr"):
         j = op["j"]
